@@ -585,7 +585,11 @@ class Gen:
         """Emits the statements building processor p_v on m modes; role = 'left' | 'right'."""
         rng = self.rng
         multi = False
-        if rng.chance(1, 2):
+        if m >= 2 and rng.chance(1, 3):
+            multi = self.build_layered(v, m)
+            if self.dead:
+                return multi
+        elif rng.chance(1, 2):
             items = rand_items(rng, m, 4)
             multi = len(items) > 1
             self.emit({"op": "new", "v": v, "m": m, "items": items})
@@ -633,6 +637,37 @@ class Gen:
             if moi:
                 self.emit({"op": "ps", "v": v, "ps": rand_ps(rng, moi)})
         return multi
+
+    def build_layered(self, v, m):
+        """Component by component, every component at top level: layers of fixed phase shifters on many modes,
+        permutations of any cycle type (3-cycles and longer included) and a few beam splitters. This is what the
+        simplifier run by _compose_experiment rewrites (phases pushed through PERMs and merged, PERMs fused)."""
+        rng = self.rng
+        self.emit({"op": "new", "v": v, "m": m})
+        n_layers = rng.rint(3, 6)
+        for _ in range(n_layers):
+            if self.dead:
+                break
+            kind = rng.choice(["ps", "ps", "perm", "perm", "bs"])
+            if kind == "ps":
+                for mode in range(m):
+                    if rng.chance(3, 4):
+                        lf = gen.rand_leaf(rng, 1, kinds=("PS",))
+                        self.emit({"op": "comp", "v": v, "map": {"kind": "int", "b": mode}, "k": 1, "items": [(0, lf)],
+                                   "keep": 1, "wrap": False, "legal": True})
+            elif kind == "perm":
+                n = rng.rint(min(3, m), m)
+                p = rng.shuffle(range(n))
+                if p == list(range(n)):
+                    p = p[1:] + p[:1]
+                lf = gen.Leaf("PERM", n, gen.perm_exact(p), (p,))
+                self.emit({"op": "comp", "v": v, "map": {"kind": "int", "b": rng.rint(0, m - n)}, "k": n,
+                           "items": [(0, lf)], "keep": 1, "wrap": False, "legal": True})
+            else:
+                lf = gen.rand_leaf(rng, 2, kinds=("BS",))
+                self.emit({"op": "comp", "v": v, "map": {"kind": "int", "b": rng.rint(0, m - 2)}, "k": 2,
+                           "items": [(0, lf)], "keep": 1, "wrap": False, "legal": True})
+        return True
 
     def plug_component(self, v, legal_only=False, forms=None):
         rng = self.rng
